@@ -1162,14 +1162,22 @@ func (e *Env) call(n *ast.CallExpr) Val {
 				for _, li := range t.loops {
 					dbg += fmt.Sprintf(" [loop %d header b%d]", li.ordinal, li.header.Index)
 				}
-				e.fail("visited(%d, ..): loop %d is not a range over a map;%s", ord, ord, dbg)
+				// the loop the clause was written for is gone or is no longer a
+				// range over a map: the clause is stale (undecided, never an alarm)
+				e.fail("stale identifier: visited(%d, ..): loop %d is not a range over a map;%s", ord, ord, dbg)
 			}
 			comp, srt, _, has := t.rangeVisited(rg)
 			if !has {
 				e.fail("visited(%d, ..): unsupported key type", ord)
 			}
 			mt := rg.X.Type().Underlying().(*types.Map)
-			k := t.materialize(e.eval(n.Args[1]), mt.Key())
+			kv := e.eval(n.Args[1])
+			if kv.T != nil && t.mode.scalarSort(kv.T) != "" && t.mode.scalarSort(kv.T) != t.mode.scalarSort(mt.Key()) {
+				// loop N ranges over a map with another key type than the clause
+				// speaks about: it is not the loop the clause was written for
+				e.fail("stale identifier: visited(%d, ..): loop %d ranges over a map keyed by %s", ord, ord, mt.Key())
+			}
+			k := t.materialize(kv, mt.Key())
 			if k.K != VScalar {
 				e.fail("visited: key is not a scalar")
 			}
